@@ -3,6 +3,7 @@
 
     client/client.go   recover(), scan() (the cache side: include, clean-up, hash, cache update),
                        startValidate (one processed poll batch / the whole loop), finish(),
+                       startRetry (the worker behind the retry channel),
                        canDelete(), startTrack (per-part bookkeeping, hand-over to the validator)
     cache/local.go     Get, Add/add, Done, Remove, Persist (with the dirty flag)
     store/local.go     Sync, Remove (as far as the decisions depend on them)
@@ -555,6 +556,70 @@ def scan (fx : Fixes) (env : Env) (st : St) : ScanResult :=
     let h := hashNow st1.store w.name
     if h = "" then none else some (w.name, h))
   { st := p2.1.persist, effs := p1.2 ++ p2.2 ++ [.persist], ready := ready }
+
+/-! ### client.go startRetry -/
+
+/-- what the environment does to `opener(hashed)` / `ReadableMD5(fh)` in startRetry (scripted, one-shot,
+    by name): `gone` = the file vanishes after `Sync` and the open reports not-exist; `openErr` = the open
+    fails with any other error (EMFILE, EACCES, EIO …), the file is untouched; `readErr` = the file opens
+    but reading it fails. -/
+inductive Fault
+  | gone | openErr | readErr
+deriving DecidableEq, Repr, Inhabited
+
+/-- an element of the retry channel: what finish() sent there (name and announced predecessor). -/
+structure RFile where
+  name : Name
+  prev : String
+deriving DecidableEq, Repr, Inhabited
+
+/-- the first scripted fault of a name, and the script without it. -/
+def takeFault : List (Name × Fault) → Name → Option Fault × List (Name × Fault)
+  | [], _ => (none, [])
+  | (m, k) :: rest, n =>
+    if m = n then (some k, rest)
+    else ((takeFault rest n).1, (m, k) :: (takeFault rest n).2)
+
+/-- the tail of the loop body of startRetry: `cache.Add(hashed)` with the hash just computed (size and time
+    are those of the cache entry the `hashFile` wraps), `cached = cache.Get(name)`, and the push of a
+    `recoverFile` around it with the predecessor of the polled file and the whole file as the one range
+    left to send. -/
+def retryRequeue (fx : Fixes) (st : St) (f : RFile) (c : CEntry) (h : String) : St × List Eff :=
+  let st1 := { st with cache := cadd fx st.cache f.name c.size c.time h, dirty := true }
+  match cget st1.cache f.name with
+  | some c1 => (st1, [.cacheAdd f.name, .push (.resume f.name f.prev [⟨0, c1.size⟩])])
+  | none => (st1, [.cacheAdd f.name])
+
+/-- one iteration of client.go startRetry for a file taken off `chRetry`: no cache entry: ignored; `Sync`
+    reports an error or a changed file: ignored (the scan picks a changed file up); open fails with
+    not-exist: `cache.Done(name, nil)`; open fails otherwise: nothing; read fails: re-added with an empty
+    hash and queued; else re-added with the fresh hash and queued whole. The loop state carries the
+    scripted faults. -/
+def retryOne (fx : Fixes) (s : St × List (Name × Fault)) (f : RFile) :
+    (St × List (Name × Fault)) × List Eff :=
+  match cget s.1.cache f.name with
+  | none => (s, [])
+  | some c =>
+    match sync s.1.store c with
+    | .absent => (s, [])
+    | .changed => (s, [])
+    | .same =>
+      match (takeFault s.2 f.name).1 with
+      | some .gone =>
+        (({ s.1 with store := sremove s.1.store f.name }.cacheDone f.name, (takeFault s.2 f.name).2),
+          [.cacheDone f.name false])
+      | some .openErr => ((s.1, (takeFault s.2 f.name).2), [])
+      | some .readErr =>
+        (((retryRequeue fx s.1 f c "").1, (takeFault s.2 f.name).2), (retryRequeue fx s.1 f c "").2)
+      | none =>
+        (((retryRequeue fx s.1 f c (hashNow s.1.store f.name)).1, (takeFault s.2 f.name).2),
+          (retryRequeue fx s.1 f c (hashNow s.1.store f.name)).2)
+
+/-- client.go startRetry until `chRetry` is empty (it never calls Persist). Faults that were not met are
+    dropped with the end of the run. -/
+def retryRun (fx : Fixes) (st : St) (files : List RFile) (faults : List (Name × Fault)) : St × List Eff :=
+  let r := runLoop (retryOne fx) (st, faults) files
+  (r.1.1, r.2)
 
 /-! ### restart -/
 
